@@ -48,6 +48,15 @@ class Fx(object):
                     fam, k, frac = oracle.infer_family(his)
                     if frac >= 0.9:
                         self.tables[(fam, k)] = (mk("carray", ty, c["val"]["hex"]), c)
+                    else:
+                        # the same family stored in descending order (and consumed front to back): read it in ascending order
+                        fam, k, frac = oracle.infer_family(his[::-1])
+                        if frac >= 0.9:
+                            hx = c["val"]["hex"]
+                            el = [hx[i:i + 32] for i in range(0, len(hx), 32)]
+                            rhex = "".join(el[::-1])
+                            c2 = dict(c, val=dict(c["val"], hex=rhex), stored_descending=True)
+                            self.tables[(fam, k)] = (mk("carray", ty, rhex), c2)
         return self.tables
 
 def horner_chain(x, table, lo, hi):
@@ -195,7 +204,21 @@ def check_C13(ctx, rep):
     rules_total.totality(rep, f, "R30", rules_total.entries_C13(), "powi / Pow / roots", min_sites=0)
     from .rules_c10 import check_delegation_subset
     check_delegation_subset(rep, f, {"sqrt", "cbrt", "hypot", "powi", "recip"})
+    check_defaults_subset(rep, f, {"sqrt", "cbrt", "hypot", "powi", "recip"})
     rep.floor("R31", len([o2 for o2 in rep.obl if o2["rule"] == "R31"]), 3, "root functions")
+
+def check_defaults_subset(rep, f, names, rule="R16ds"):
+    """a num_traits Float / FloatCore method of this family that is NOT overridden runs the trait's generic default, not the
+    inherent function the property is about (shared with C10's R16d)"""
+    for im in f.impls:
+        tr = F.norm_path(im["trait"])
+        if not tr.startswith("num_traits") or F.norm_ty(im["self_ty"]) != TF or tr.split("::")[-1] not in ("Float", "FloatCore", "Signed"):
+            continue
+        for m_ in im.get("inherited_defaults", []):
+            if m_ in names and f.get("TwoFloat::" + m_) is not None:
+                rep.fail(rule, "%s::%s (default body)" % (tr, m_), "unreviewed-default:%s::%s" % (tr, m_),
+                         "trait default %s::%s is not overridden although TwoFloat::%s exists: the trait route runs num_traits' generic body" % (tr, m_, m_))
+    rep.ok(rule, "trait routes of %s are overridden" % sorted(names), detail="no inherited num_traits default among them", nontrivial=False)
 
 def check_root_errors(fx, ok_sqrt, ok_hypot):
     """R31e: relative error of the Karp-Markstein square root (DESIGN B.3) and of hypot, in exact rationals.
@@ -813,6 +836,8 @@ def check_C16(ctx, rep):
         check_tan_total_error(fx, ttabs[0], t_tan, b_tan)
     from .rules_c10 import check_delegation_subset
     check_delegation_subset(rep, f, {"sin", "cos", "tan", "sin_cos"})
+    from . import rules_total
+    rules_total.totality(rep, f, "R42t", rules_total.entries_C16(), "trigonometric functions", min_sites=0)
     rep.floor("R41", len([o for o in rep.obl if o["rule"] == "R41"]), 4, "trigonometric dispatch tables")
 
 def check_tan_total_error(fx, tab, t_tan, b_tan):
@@ -1122,6 +1147,8 @@ def check_C17(ctx, rep):
     check_ref(fx, "R46", "TwoFloat::atan2", ref, "y==0: x>=+0 -> 0 else +-pi by the sign of y; x==0: +-pi/2; else atan(y/x), +-pi added for x<0 by the sign of y", keep=("TwoFloat::atan",))
     from .rules_c10 import check_delegation_subset
     check_delegation_subset(rep, f, {"asin", "acos", "atan", "atan2"})
+    from . import rules_total
+    rules_total.totality(rep, f, "R46t", rules_total.entries_C17(), "inverse trigonometric functions", min_sites=0)
     rep.floor("R44-46", len([o2 for o2 in rep.obl if o2["rule"] in ("R44", "R45", "R46")]), 5, "inverse trigonometric functions")
 
 # ====================================================================== C18
@@ -1278,6 +1305,8 @@ def check_powi_loop(fx):
             g = g[3]; continue
         if g[0] == "if" and tag(g[1]) == "cmp" and g[1][1] in ("eq", "ne") and only_exponent(g[1]):
             g = g[3] if g[1][1] == "eq" else g[2]; continue
+        if g[0] == "if" and ("unreachable",) in (g[2], g[3]):
+            g = g[3] if g[2] == ("unreachable",) else g[2]; continue      # an assumed debug assertion
         break
     entries = [e for e in ex.loop_entries if e[0] == b.ident()]
     if not entries:
